@@ -90,7 +90,7 @@ def C18(prog: Program, run: Run, tier: str) -> None:
 
 
 # ---------------------------------------------------------------------------------------------
-from .rules import axis, extra, findings, forward, generic, guards, round3, round4, rounding, specific  # noqa: E402
+from .rules import axis, extra, findings, forward, generic, guards, round3, round4, round5, rounding, specific  # noqa: E402
 
 AXIS_DESC = (
     "R-AXIS x/y axis-tag consistency: T1 tagged value in a slot of the opposite axis (Affine, xy_/yx_, BoundingBox, "
@@ -237,6 +237,7 @@ def C10(prog: Program, run: Run, tier: str) -> None:
     run.add(findings.paste_shape_aware(prog) + findings.gdal_identity_transform(prog), "R-GUARDSEQ absence-of-guard clause behind a recorded finding (see known_findings.json)")
     run.add(round3.overlap_keeps_sign(prog), "R-SIGNROLE box_overlap passes the signed scale components")
     run.add(round3.sign_preserving_returns(prog), "R-SIGNROLE snapping helpers keep the sign")
+    run.add(_only(_fwd(prog, {"overlap"}), "overlap:compute_reproject_roi", "overlap:_can_paste", "overlap:box_overlap"), FWD_DESC)
     run.floor("R-GUARDSEQ|", 12)
 
 
@@ -278,6 +279,7 @@ def C13(prog: Program, run: Run, tier: str) -> None:
     run.add(findings.lonlat_footprint_validity(prog), "R-GUARDSEQ absence-of-guard clause behind a recorded finding (see known_findings.json)")
     run.add(round3.pix_bbox_half_open(prog), "R-ROUND tile box is the half-open slice extent")
     run.add(round3.variable_locate_searches(prog), "R-GUARDSEQ variable tiling locates by searching its offsets")
+    run.add(extra.gcp_frames(prog), "R-FRAME the chunked path crops a GCP source per destination chunk: the GCPs handed to the warp are converted from the control-point frame to the crop's frame in the right direction")
     run.floor("R-API|", 15)
 
 
@@ -371,7 +373,11 @@ GENERIC_DESC = (
     "R-EPSGPROXY no comparison of two .epsg attributes in place of CRS equality; R-ROTTOL is_affine_st never called with a constant tolerance looser than its default; "
     "R-NUMNORM a public function never negates (or subtracts from a constant, or updates in place through an alias) an integer/step parameter "
     "in the caller's own numeric type - numpy unsigned/narrow scalars wrap, 0-d arrays are mutated: re-bind through int()/float()/operator.index() first; "
-    "R-ISNUM no isinstance(param, int/float) dispatch between the scalar and the other form of a parameter (numpy scalars are neither): numbers.Integral/Real"
+    "R-ISNUM no isinstance(param, int/float) dispatch between the scalar and the other form of a parameter (numpy scalars are neither): numbers.Integral/Real; "
+    "R-VALUEOBJ EQSYM an __eq__ that lets in instances of an unrelated package class is matched by that class' __eq__ letting it in (symmetry); "
+    "R-SHIFTIDX no shifted subscript a[i + k] under a guard that admits negative i; R-SWALLOW no predicate answers a boolean constant from the handler of a package call that raised because it could not tell; "
+    "R-UNITS a computed densification step for to_crs comes from the geometry, not from the target side; R-REVRANGE the backward alternative of range(a, b) is range(b-1, a-1, -1); "
+    "R-IMPORTTIME no uuid/tempfile/time generator evaluated at module level"
 )
 
 
@@ -395,7 +401,10 @@ def _anchored_modules() -> dict:
 ANCHORED = _anchored_modules()
 
 
-ROUND4 = {'C01': ['epsg_str_canonical', 'explicit_crs_checked', 'wrapper_keywords'], 'C02': ['poly_fit_rank_safe', 'dispatch_matches_precondition'], 'C20': ['poly_fit_rank_safe', 'dispatch_matches_precondition'], 'C03': ['scale_fit_offsets'], 'C04': ['tiles_edge_cases'], 'C05': ['cog_header_and_dtype'], 'C06': ['mpu_task_hygiene'], 'C07': ['epsg_str_canonical'], 'C09': ['affine_st_relative'], 'C10': ['warp_buffers'], 'C13': ['warp_buffers', 'tile_query_nonlinear'], 'C11': ['same_crs_shortcut'], 'C12': ['tile_query_nonlinear'], 'C14': ['web_tiles_exact'], 'C15': ['rio_writer_inputs'], 'C16': ['grid_union_details'], 'C17': ['slice_normalisation'], 'C18': ['sink_identity'], 'C19': ['epsg_str_canonical', 'token_no_raw_arrays']}
+ROUND4 = {'C01': ['epsg_str_canonical', 'explicit_crs_checked', 'wrapper_keywords'], 'C02': ['poly_fit_rank_safe', 'dispatch_matches_precondition'], 'C20': ['poly_fit_rank_safe', 'dispatch_matches_precondition'], 'C03': ['scale_fit_offsets'], 'C04': ['tiles_edge_cases'], 'C05': ['cog_header_and_dtype', 'mpu_task_hygiene'], 'C06': ['mpu_task_hygiene'], 'C07': ['epsg_str_canonical'], 'C09': ['affine_st_relative'], 'C10': ['warp_buffers'], 'C13': ['warp_buffers', 'tile_query_nonlinear'], 'C11': ['same_crs_shortcut'], 'C12': ['tile_query_nonlinear'], 'C14': ['web_tiles_exact'], 'C15': ['rio_writer_inputs'], 'C16': ['grid_union_details'], 'C17': ['slice_normalisation'], 'C18': ['sink_identity'], 'C19': ['epsg_str_canonical', 'token_no_raw_arrays']}
+
+
+ROUND5 = {'C02': ['resolution_siblings'], 'C03': ['point_transform_clamps'], 'C05': ['part_budget_matches_reservation'], 'C06': ['part_budget_matches_reservation'], 'C08': ['zoom_to_resolution_exact'], 'C11': ['utm_lonlat_needs_no_crs'], 'C13': ['dst_nodata_before_warp'], 'C16': ['auto_resolution_fallback'], 'C17': ['int_index_is_unit_slice'], 'C18': ['parts_dir_full_name'], 'C20': ['snap_tolerance_both_edges', 'resolution_siblings']}
 
 
 def _with_generic(pid, fn):
@@ -406,10 +415,15 @@ def _with_generic(pid, fn):
                 run.add(getattr(round4, _nm)(prog), "round-4 clause: " + (getattr(round4, _nm).__doc__ or "").split(".")[0].strip() + " (structural part of a repaired defect; see rules/round4.py)")
             except AnalysisError as e:  # a vanished anchor fails this clause (exit 2), the remaining clauses still run
                 run.error(f"{_nm}: {e}")
+        for _nm in ROUND5.get(pid, []):
+            try:
+                run.add(getattr(round5, _nm)(prog), "round-5 clause: " + (getattr(round5, _nm).__doc__ or "").split(". ", 1)[-1].split(".")[0].strip() + " (structural part of a property a seeded change broke; see rules/round5.py)")
+            except AnalysisError as e:
+                run.error(f"{_nm}: {e}")
         run.add(findings.declared(prog, pid), "R-DECLARED findings recorded with a failing input but without a structural clause: printed for the record, not decided")
         mods = {m for m in ANCHORED.get(pid, set()) if m in prog.modules}
         run.add(generic.rule_dup(prog, mods) + generic.rule_truthy(prog, mods) + generic.rule_abseps(prog, mods) + generic.rule_localmemo(prog, mods) + generic.rule_remainder_owner(prog, mods) + generic.rule_fallback(prog, mods) + generic.rule_isclose(prog, mods) + generic.rule_signed_magnitude(prog, mods) + generic.rule_zerodiv(prog, mods) + generic.rule_densify(prog, mods) + generic.rule_termination(prog, mods) + generic.rule_intidx(prog, mods) + generic.rule_assert_vs_annotation(prog, mods) + generic.rule_precision(prog, mods) + generic.rule_sharedmut(prog, mods) + generic.rule_itertwice(prog, mods)
-                + generic.rule_epsg_proxy(prog, mods) + generic.rule_rotation_tolerance(prog, mods) + generic2.rule_numnorm(prog, mods) + generic2.rule_isnum(prog, mods), GENERIC_DESC)
+                + generic.rule_epsg_proxy(prog, mods) + generic.rule_rotation_tolerance(prog, mods) + generic2.rule_numnorm(prog, mods) + generic2.rule_isnum(prog, mods) + generic2.rule_eqsym(prog, mods) + generic2.rule_shiftidx(prog, mods) + generic2.rule_swallow(prog, mods) + generic2.rule_units(prog, mods) + generic2.rule_revrange(prog, mods) + generic2.rule_importtime(prog, mods), GENERIC_DESC)
 
     wrapped.__name__ = pid
     wrapped.__doc__ = fn.__doc__
